@@ -28,6 +28,15 @@ THEOREMS = [
     "GoaktVerif.C09.C09_holds",
 ]
 INPKG = ["actor/zz_verif_c09.go", "actor/zz_verif_c09sys.go"]
+# engine E3 for the `resolve` cases: yield points in the tree's lookup / delete path
+INSTRUMENT = ["actor/pid_tree.go"]
+INSTRUMENT_ARGS = {"actor/pid_tree.go": ["-funcs", "tree.nodeByName,tree.node,tree.deleteNode,pidNode.value"]}
+SITES = {
+    "actor/pid_tree.go:tree.nodeByName": ["RLock:mu"],
+    "actor/pid_tree.go:tree.node": ["RLock:mu"],
+    "actor/pid_tree.go:pidNode.value": ["Load:pid"],
+    "actor/pid_tree.go:tree.deleteNode": ["Lock:mu", "Load:pid", "Store:pid", "Add:counter"],
+}
 MANIFEST = {
     "level_text": ("Kernel-checked: the consistency invariant WF of the actor tree (pids is a map keyed by PID.ID(); "
                    "counter = |pids|; every names entry points to a live registered node of that name; watchers and "
@@ -56,7 +65,8 @@ MANIFEST = {
                    "not proved. 'Not resolvable by name when the stop returns' "
                    "is NOT what the code guarantees: reset() clears the stopping flag, so ActorOf/ActorExists resolve the "
                    "stopped PID until death watch (asynchronously) deletes the node; the check asserts the eventual form "
-                   "(after death watch is quiescent) and reports the window as diagnostics (res=/reg=). Left out of the "
+                   "(after death watch is quiescent) and reports the window as diagnostics (res=/reg=); inside that window a "
+                   "lookup can even crash (open finding C09-F2, deterministic witness under controlled scheduling). Left out of the "
                    "model: addRootNode after the root slot was used, attach that would close a cycle (guarded), nil PIDs; "
                    "errgroup concurrency of sibling stops is modelled sequentially (sibling/cousin watch pairs are not "
                    "generated). Trusted: PID.Equals case folding not modelled; cleared node objects are unobservable "
@@ -333,6 +343,19 @@ def _gen_sys_case(rng, max_nodes, with_restart=True):
     return "sys " + " ".join(ops)
 
 
+def _resolve_cases():
+    """every interleaving of a name lookup (2 steps: RLock, Load:pid) with deleteNode (4 steps)"""
+    import itertools
+    out = []
+    for op in ("A", "E"):
+        for pos in itertools.combinations(range(6), 2):
+            sched = ["1"] * 6
+            for i in pos:
+                sched[i] = "0"
+            out.append(f"resolve | {op} ; D | " + " ".join(sched))
+    return out
+
+
 SYS_FIXED = [
     "sys S:a1 C:a1:a2 C:a1:a3 C:a2:a4 S:a5 W:a5:a2 W:a5:a4 K:a1",
     "sys S:a1 C:a1:a2 C:a2:a3 C:a3:a4 P:a2",
@@ -366,7 +389,7 @@ def gen_cases(rng, tier):
         nm = rng.choice([1, 2, 3, 4, 5])
         nids = rng.choice([4, 6, 8, 12])
         cases.append(_gen_tree_script(rng, rng.randint(3, 30), nm, nids))
-    cases += SYS_FIXED
+    cases += SYS_FIXED + _resolve_cases()
     for i in range(nsys):
         cases.append(_gen_sys_case(rng, rng.choice([2, 4, 6, 9, 13])))
     return cases
@@ -376,7 +399,7 @@ def search_cases(rng, tier):
     cases = list(FIXED) + _all_small_trees()
     for i in range(3000):
         cases.append(_gen_tree_script(rng, rng.randint(3, 40), rng.choice([1, 2, 3, 5]), rng.choice([4, 6, 8, 12])))
-    cases += SYS_FIXED
+    cases += SYS_FIXED + _resolve_cases()
     for i in range(600):
         cases.append(_gen_sys_case(rng, rng.choice([2, 4, 6, 9, 13])))
     return cases
@@ -516,6 +539,8 @@ def compare(case, impl, model):
         return None
     if case.startswith("guard"):
         return None if impl.startswith(model) else f"impl={impl!r} model={model!r}"
+    if case.startswith("resolve"):
+        return None if model == "*" and impl.startswith("T ") else f"impl={impl[:120]!r} model={model!r}"
     if case.startswith("sys"):
         if model == "bad-case" or impl.startswith(("CRASH", "panic")) or impl == "bad-case":
             return f"impl={impl[:200]!r} model={model[:200]!r}"
@@ -566,9 +591,17 @@ GUARD_WHY = ("guardian panics on a Terminated that overtakes its PostStart "
              "(the root guardian then stops the actor system)")
 
 
+RESOLVE_WHY = ("name resolution panics: the node was cleared by death watch between the lookup and node.value(), "
+               "and the nil PID is dereferenced")
+
+
 def oracle(case, impl, judge):
     if case.startswith("guard"):
         return ("bad " + GUARD_WHY) if "panic" in impl else None
+    if case.startswith("resolve"):
+        if "!stuck" in impl or "cap" in impl.split("|")[0].split():
+            return "bad controlled schedule did not complete: " + impl[:200]
+        return ("bad " + RESOLVE_WHY) if "panic" in impl else None
     if impl.startswith("CRASH") or impl.startswith("panic"):
         return "harness crashed or panicked: " + impl[:200]
     if impl == "bad-case":
@@ -593,11 +626,15 @@ def classify(case, impl, why):
     # C09-F1: exactly the `guard` witnesses (a guardian's Receive panicking on Terminated-before-PostStart)
     if case.startswith("guard ") and impl and "panic" in impl and why and "guardian panics" in why:
         return "C09-F1"
+    # C09-F2: exactly the `resolve` schedules in which the lookup's Load:pid comes after deleteNode's Store:pid
+    if case.startswith("resolve ") and impl and "panic: runtime error: invalid memory address" in impl \
+            and why and "name resolution panics" in why:
+        return "C09-F2"
     return None
 
 
 def is_trivial(case, impl):
-    if case.startswith("guard"):
+    if case.startswith(("guard", "resolve")):
         return False
     if case.startswith("sys"):
         return impl in ("", "bad-case") or impl.startswith(("CRASH", "panic")) or _inconclusive(impl)
@@ -609,6 +646,8 @@ def tag(case, impl):
     if f[0] == "tree":
         n = len(f) - 2
         return "tree:" + ("<=5" if n <= 5 else "<=15" if n <= 15 else "<=30" if n <= 30 else ">30")
+    if f[0] == "resolve":
+        return "resolve:" + ("panic" if impl and "panic" in impl else "ok")
     if f[0] == "sys":
         kinds = sorted({t.split(":")[0] for t in f[1:]} & set("KPQTRZ"))
         return "sys:" + "".join(kinds) + (":inconclusive" if impl and _inconclusive(impl) else "")
